@@ -207,10 +207,13 @@ Qed.
 Lemma exec_code_reach : forall code st i acc st' acc',
   sreach st -> exec_code st i code acc = Some (st', acc') -> sreach st'.
 Proof.
-  induction code as [|[o|k] code IH]; simpl; intros st i acc st' acc' R H.
+  induction code as [|[o|k|k t b] code IH]; cbn [exec_code]; intros st i acc st' acc' R H.
   - inversion H; subst; auto.
   - destruct (guardb st i o) eqn:G; try discriminate.
     destruct (sstep st i o) as [st1|] eqn:S; try discriminate.
     eapply IH; [|eauto]. eapply sr_step; eauto. apply guardb_ok; auto.
   - destruct (nth_error (stacks st) i) as [[|s0 rest]|]; try discriminate. eapply IH; eauto.
+  - destruct (nth_error (stacks st) i) as [[|s0 rest]|]; try discriminate.
+    destruct (existsb (Nat.eqb t) (anc st s0)); try discriminate.
+    destruct (ScopeLockModel.access ScopeLockModel.all_release st [] (anc st s0) k t b) as [[|? ?]|]; try discriminate. eapply IH; eauto.
 Qed.
